@@ -21,7 +21,9 @@ func init() {
 			"metadata.Name == the plugin's name are fail-closed; (e) who-may-call: exec.Command/CommandContext only there; the runner is the only caller of the commander. " +
 			"Shapes: the command may be created by a constructor function and configured by unexported helpers (every store to a field on that chain must be acceptable, one must be unconditional before Run; Run may be spelled Start + Wait); " +
 			"the runner's mapping is read off its flattened ways of returning (own returns, returns of unexported helpers whose result it returns unchanged, edges of a returned phi), with the helpers' parameters replaced by the call arguments; " +
-			"a wrapper that forwards the commander's three results unchanged and has one call site is looked through; json.Unmarshal may sit behind a helper that returns its error (and the decoded object).",
+			"a wrapper that forwards the commander's three results unchanged and has one call site is looked through; json.Unmarshal may sit behind a helper that returns its error (and the decoded object); " +
+			"the non-empty tests of the metadata may be one counting loop over a fixed local table of values (array, slice literal or variadic argument list, possibly in a helper or handed to one): " +
+			"a table that is stored once and only read, a loop that visits 0..N-1, continues only through the passing edge of the test on row J and is left on every success exit through its exhaustion edge yields the fact for every row.",
 		NotCov:  "actual timing and memory: os/exec semantics are trusted (with WaitDelay set, Wait returns at most that long after the context ends even if descendants hold the pipes).",
 		Trusted: []string{"go/types, go/ssa", "os/exec (CommandContext kills the process when the context ends; WaitDelay bounds the wait for the pipes)", "encoding/json.Unmarshal rejects trailing data"},
 	})
@@ -319,6 +321,25 @@ func c17Metadata(c *Ctx, RUN *ssa.Function) {
 		needs = append(needs, Need{Name: "non-empty-" + strings.ToLower(f), What: "metadata." + f + " is not empty", Alt: [][]string{{"NE(len(" + md + "." + f + "),const:0)"}, {"GT(len(" + md + "." + f + "),const:0)"}}})
 	}
 	needs = append(needs, Need{Name: "contract-version", What: "the supported contract versions contain the host's contract version", Subs: []string{"T(call:slices.Contains(" + md + ".SupportedContractVersions," + fmt.Sprintf("const:%q))", cv)}})
-	c.requireOnExits("metadata", GM, s.Exits, needs)
+	// facts established by one loop over a fixed table of values instead of one branch per value (extra_c17.go, (d)):
+	// they hold on every success exit, so they are added to the must-pass facts of each
+	exits := s.Exits
+	if extra, _ := c17TableFacts(c, GM, Mode{Kind: mErr}, map[*ssa.Function]bool{}, 0); len(extra) > 0 {
+		exits = nil
+		for _, ex := range s.Exits {
+			e2 := *ex
+			e2.Checked = map[string]string{}
+			for l, site := range ex.Checked {
+				e2.Checked[l] = site
+			}
+			for l, site := range extra {
+				if _, ok := e2.Checked[l]; !ok {
+					e2.Checked[l] = site
+				}
+			}
+			exits = append(exits, &e2)
+		}
+	}
+	c.requireOnExits("metadata", GM, exits, needs)
 	// the request carries the plugin's own name/path
 }
